@@ -1,5 +1,5 @@
 (* Correspondence for C04.
-   tree cases : the FOps instance of Mesh2D/qtBuild/lineIntersect (Sdf/Poly.v) must rebuild the
+   tree cases : the FOps instance of Mesh2D/qtBuild/lineIntersect/lineClip (Sdf/Poly.v) must rebuild the
                 quadtree dumped from the real MeshSDF2 bit for bit, and the dumped tree must pass
                 `well_clipped_check` at QOps (exact rationals): with tolerance 0 where the cut points
                 are exact (axis-parallel edges), with tolerance 2^-40*scale elsewhere.
@@ -32,6 +32,13 @@ Section Inj.
 End Inj.
 
 Definition fid (x : float) : T FOps := x.
+
+(* math.Nextafter on float64 (NaN if either argument is NaN; x if x = y; otherwise the neighbour of
+   x in the direction of y; Go's special case for x = 0 is the same value) *)
+Definition fnextafter (x y : float) : float :=
+  if PrimFloat.is_nan x || PrimFloat.is_nan y then PrimFloat.nan
+  else if PrimFloat.eqb x y then x
+  else if PrimFloat.ltb y x then PrimFloat.next_down x else PrimFloat.next_up x.
 Definition fq (x : float) : T QOps := F2Q x.
 
 (* ---- bit-exact comparison of a model tree with the dumped tree *)
@@ -66,8 +73,8 @@ Definition seg_to_Q (s : Seg FOps) : Seg QOps :=
 
 (* ---- tree case: id, mode, qtMaxLevel, vertices, dumped tree, chains hint.
    mode 0: the tolerant certificate must hold; 1: also the exact (tolerance 0) winding certificate;
-   2: input of a known finding (a vertex within the clipping tolerance of a split line): only
-   "model rebuilds the dump" is required *)
+   2: only "model rebuilds the dump" is required (not used on the repaired code: since lineIntersect
+   clips by coordinates no polygon is outside the class) *)
 Definition tcase := (N * N * N * list (float * float) * ftree * list (list fseg))%type.
 Definition tid (c : tcase) : N := let '(id, _, _, _, _, _) := c in id.
 (* The certificate on a dumped tree.  chain_check, box_check and nondeg_b do arithmetic and run at
@@ -88,7 +95,7 @@ Definition cert (tol : Q) (tree : ftree) (sf : list (Seg FOps)) (chains : list (
 Definition tcheck (c : tcase) : bool * bool * bool * bool :=
   let '(id, ex, maxlevel, verts, tree, chains) := c in
   let sf := segsF verts in
-  let built := @mesh2d FOps (N.to_nat maxlevel) sf in
+  let built := @mesh2d FOps fnextafter (N.to_nat maxlevel) sf in
   let tol := Qred (eps40 * tree_scale tree) in
   let c0 := cert 0%Q tree sf chains in
   (tree_same built (@itree FOps fid tree), snd (cert tol tree sf chains), fst c0, snd c0).
@@ -177,3 +184,84 @@ Lemma pinned_clip_refuted :
     @winding FOps (@new_line_info FOps l) p = 0%Z /\
     v2same (@clip_pt FOps l 1%float) (snd l) = true.
 Proof. exists star_edge, star_point. vm_compute. repeat split. Qed.
+
+(* ---- the defect repaired by "fix: Box2.lineIntersect clips by coordinates": the documented example
+   examples/bezier egg1 (56 vertices as Bezier.Polygon returns them, bounding box {0,0}-{5.77,16}).
+   The quadtree box is [-0.08,16.08]^2 and its centre line y = 7.999999999999998 passes 2 ulp below
+   the vertex (5.625, 8).  The tolerance version of lineIntersect snapped that vertex onto the line in
+   one leaf piece and left it alone in the neighbouring piece, so the leaf pieces no longer form
+   closed chains: at (-67.678, 7.9999999999999991), far to the left of the box and level with the
+   gap, the quadtree walk counts -1 crossings (brute force and the exact rational crossing number: 0)
+   and Evaluate returns -67.678, "inside".  The repaired clipping gives 0 and +67.678. *)
+Definition egg1_verts : list (float * float) :=
+  ([(0, 0);
+   (0x1.d4cfp-02, 0x1.7cp-07);
+   (0x1.c9bcp-01, 0x1.78p-05);
+   (0x1.4f154p+00, 0x1.a28p-04);
+   (0x1.b3fp+00, 0x1.7p-03);
+   (0x1.09c26p+01, 0x1.1c6p-02);
+   (0x1.36f5p+01, 0x1.95p-02);
+   (0x1.619b2p+01, 0x1.109p-01);
+   (0x1.89cp+01, 0x1.6p-01);
+   (0x1.af6eep+01, 0x1.b87p-01);
+   (0x1.d2b3p+01, 0x1.0ccp+00);
+   (0x1.f397ap+01, 0x1.4168p+00);
+   (0x1.0914p+02, 0x1.7ap+00);
+   (0x1.1737bp+02, 0x1.b658p+00);
+   (0x1.243c8p+02, 0x1.f64p+00);
+   (0x1.30281p+02, 0x1.1cc4p+01);
+   (0x1.3bp+02, 0x1.4p+01);
+   (0x1.44c9fp+02, 0x1.64bcp+01);
+   (0x1.4d8b8p+02, 0x1.8aep+01);
+   (0x1.554a5p+02, 0x1.b254p+01);
+   (0x1.5c0cp+02, 0x1.dbp+01);
+   (0x1.61d63p+02, 0x1.0266p+02);
+   (0x1.66ae8p+02, 0x1.17dp+02);
+   (0x1.6a9a9p+02, 0x1.2db2p+02);
+   (0x1.6dap+02, 0x1.44p+02);
+   (0x1.710d8p+02, 0x1.71bp+02);
+   (0x1.7124p+02, 0x1.a08p+02);
+   (0x1.6e108p+02, 0x1.d01p+02);
+   (0x1.68p+02, 0x1p+03);
+   (0x1.5f1f8p+02, 0x1.17f8p+03);
+   (0x1.539cp+02, 0x1.2fcp+03);
+   (0x1.45a28p+02, 0x1.4728p+03);
+   (0x1.356p+02, 0x1.5ep+03);
+   (0x1.23018p+02, 0x1.7418p+03);
+   (0x1.0eb4p+02, 0x1.894p+03);
+   (0x1.f149p+01, 0x1.9d48p+03);
+   (0x1.c2p+01, 0x1.bp+03);
+   (0x1.8fe7p+01, 0x1.c138p+03);
+   (0x1.5b58p+01, 0x1.d0cp+03);
+   (0x1.40406p+01, 0x1.d7d3p+03);
+   (0x1.24adp+01, 0x1.de68p+03);
+   (0x1.08a92p+01, 0x1.e479p+03);
+   (0x1.d88p+00, 0x1.eap+03);
+   (0x1.9ef9cp+00, 0x1.eef7p+03);
+   (0x1.64d6p+00, 0x1.f358p+03);
+   (0x1.2a2b4p+00, 0x1.f71dp+03);
+   (0x1.de2p-01, 0x1.fa4p+03);
+   (0x1.a2be7p-01, 0x1.fb92ep+03);
+   (0x1.67358p-01, 0x1.fcbbp+03);
+   (0x1.2b8adp-01, 0x1.fdb7ap+03);
+   (0x1.df88p-02, 0x1.fe88p+03);
+   (0x1.67cd6p-02, 0x1.ff2b6p+03);
+   (0x1.dfe2p-03, 0x1.ffa1p+03);
+   (0x1.dff88p-04, 0x1.ffe82p+03);
+   (0, 0x1p+04)])%float.
+Definition egg1_point : V2 FOps := mkV2 (-0x1.0eb68p+6)%float 0x1.fffffffffffffp+2%float.
+Definition ffast (t : qt FOps (Seg FOps)) (p : V2 FOps) : float :=
+  @eval_fast FOps (@qt_map FOps _ _ (@new_line_info FOps) t) p.
+Definition fwalk (t : qt FOps (Seg FOps)) (p : V2 FOps) : Z :=
+  @qt_winding FOps (@qt_map FOps _ _ (@new_line_info FOps) t) p 0%Z.
+Lemma pinned_snap_refuted :
+  exists (verts : list (float * float)) (p : V2 FOps),
+    let segs := segsF verts in
+    PrimFloat.ltb (vx p) (vx (b2min (@mesh_bb FOps segs))) = true /\
+    @wn_spec QOps (map seg_to_Q segs) (mkV2 (F2Q (vx p)) (F2Q (vy p))) = 0%Z /\
+    snd (@slow_loop FOps (@convert_lines FOps segs) p) = 0%Z /\
+    fwalk (@mesh2d_snap FOps 3 segs) p = (-1)%Z /\
+    PrimFloat.ltb (ffast (@mesh2d_snap FOps 3 segs) p) 0%float = true /\
+    fwalk (@mesh2d FOps fnextafter 3 segs) p = 0%Z /\
+    PrimFloat.ltb 0%float (ffast (@mesh2d FOps fnextafter 3 segs) p) = true.
+Proof. exists egg1_verts, egg1_point. vm_compute. repeat split. Qed.
